@@ -36,6 +36,10 @@ type FailingWriter struct {
 	AfterFail  int // writes attempted after the first failing one
 	Buf        []byte
 	ShortWrite bool // failing writes report n=0 with error (default) — or a short count without error text
+	// Count selects what a failing Write reports next to its error: 0: n = 0,
+	// 1: n = len(b) (the io.Writer contract allows an error together with
+	// the full count), 2: n = len(b)/2.
+	Count int
 }
 
 func (w *FailingWriter) Write(b []byte) (int, error) {
@@ -43,6 +47,12 @@ func (w *FailingWriter) Write(b []byte) (int, error) {
 	if w.Writes >= w.K {
 		if w.Writes > w.K {
 			w.AfterFail++
+		}
+		switch w.Count {
+		case 1:
+			return len(b), ErrSink
+		case 2:
+			return len(b) / 2, ErrSink
 		}
 		return 0, ErrSink
 	}
